@@ -15,10 +15,14 @@ def jobs(tier):
     from cpus import CPUS
     FX = [("msp430", "msp430", "mov.w #", ", r5"), ("msp430", "msp430", "add.w ", "(r4), r6"), ("msp430", "msp430", "mov.w &", ", r5"), ("msp430", "msp430", "jne ", ""), ("msp430", "msp430", "mov.w r5, ", ""),
           ("riscv", "riscv", "beq x10, x11, ", ""), ("riscv", "riscv", "bltu x5, x6, ", ""), ("riscv", "riscv", "jal x1, ", ""), ("riscv", "riscv", "addi x5, x6, ", ""), ("riscv", "riscv", "lui x5, ", ""),
-          ("riscv", "riscv", "lw x5, ", "(x6)"), ("riscv", "riscv", "sw x5, ", "(x6)"), ("riscv", "riscv", "slli x5, x6, ", ""), ("riscv", "riscv", "jalr x1, x5, ", ""), ("riscv", "riscv", "auipc x5, ", "")]
+          ("riscv", "riscv", "lw x5, ", "(x6)"), ("riscv", "riscv", "sw x5, ", "(x6)"), ("riscv", "riscv", "slli x5, x6, ", ""), ("riscv", "riscv", "jalr x1, x5, ", ""), ("riscv", "riscv", "auipc x5, ", ""),
+          # further forms, each decided completely in seconds: other I-type/branch/load/store/shift rows and msp430 byte-immediate, signed jump, single-operand immediates
+          ("riscv", "riscv", "xori x7, x8, ", ""), ("riscv", "riscv", "sltiu x9, x10, ", ""), ("riscv", "riscv", "bge x12, x13, ", ""), ("riscv", "riscv", "lbu x5, ", "(x6)"), ("riscv", "riscv", "sh x5, ", "(x6)"), ("riscv", "riscv", "srai x5, x6, ", ""),
+          ("msp430", "msp430", "cmp.b #", ", r6"), ("msp430", "msp430", "jl ", ""), ("msp430", "msp430", "push #", ""), ("msp430", "msp430", "call #", "")]
     if tier == "thorough":
         FX += [("6502", "6502", "lda #", ""), ("6502", "6502", "bne ", ""), ("6502", "6502", "lda ", ",x"), ("z80", "z80", "ld a, ", ""), ("z80", "z80", "jr ", ""), ("z80", "z80", "ld hl, ", ""),
-               ("8051", "8051", "mov A, #", ""), ("8051", "8051", "sjmp ", ""), ("avr8", "avr8", "ldi r16, ", ""), ("avr8", "avr8", "rjmp ", ""), ("stm8", "stm8", "ld A, #", ""), ("stm8", "stm8", "jra ", "")]
+               ("8051", "8051", "mov A, #", ""), ("8051", "8051", "sjmp ", ""), ("avr8", "avr8", "ldi r16, ", ""), ("avr8", "avr8", "rjmp ", ""), ("stm8", "stm8", "ld A, #", ""), ("stm8", "stm8", "jra ", ""),
+               ("6800", "6800", "ldaa #", ""), ("6809", "6809", "lda #", ""), ("68hc08", "68hc08", "lda #", ""), ("tms9900", "tms9900", "li r1, ", "")]
     for k, (key, cpu, pre, post) in enumerate(FX):
         c = CPUS[key]
         d = {"CPUNAME": '"%s"' % c["cpu"], "PRE": '"%s"' % pre, "POST": '"%s"' % post, "DISASM_FN": c["disasm"], "DISASM_HDR": '"%s"' % c["hdr"], "FLAGS": c["flags"], "BPA": 2 if key in ("avr8",) else 1}
